@@ -248,9 +248,17 @@ def props_status(pid):
         res['log'] = 'no Props file'
         return res
     txt = strip_coq_comments(open(src).read())
-    thms = re.findall(r'^\s*(?:Theorem|Lemma|Corollary|Example)\s+([A-Za-z0-9_\']+)', txt, flags=re.M)
+    thms = re.findall(r'^\s*(?:Theorem|Lemma|Corollary|Fact|Remark|Proposition|Example)\s+([A-Za-z0-9_\']+)', txt, flags=re.M)
     res['theorems'] = thms
     res['obligations'] = len(thms)
+    # every Theorem / Lemma / Corollary (an Example is a computed instance, not an obligation) must be FOLLOWED by a
+    # `Print Assumptions <name>.` -- otherwise an axiom it depends on would go unseen
+    missing = []
+    for m in re.finditer(r'^\s*(Theorem|Lemma|Corollary|Fact|Remark|Proposition)\s+([A-Za-z0-9_\']+)', txt, flags=re.M):
+        if not re.search(r'Print\s+Assumptions\s+' + re.escape(m.group(2)) + r'\s*\.(?:\s|$)', txt[m.end():]):
+            missing.append(m.group(2))
+    res['missing_print_assumptions'] = missing
+    res['print_assumptions_requested'] = len(re.findall(r'Print\s+Assumptions\s+[A-Za-z0-9_\'\.]+?\s*\.(?:\s|$)', txt))
     outdir = os.path.join(WORK, 'props')
     os.makedirs(outdir, exist_ok=True)
     with Lock('coq'):
@@ -275,65 +283,131 @@ def props_status(pid):
     res['print_assumptions'] = n_closed
     bad = [a for a in res['axioms'] if a not in ALLOWED_AXIOMS]
     res['bad_axioms'] = bad
-    res['discharged'] = len(thms) if not bad else 0
-    res['ok'] = (not bad) and len(thms) > 0
+    # every requested Print Assumptions must have produced an answer (an answer that went missing would hide an axiom)
+    res['print_assumptions_unanswered'] = max(0, res['print_assumptions_requested'] - n_closed)
+    res['discharged'] = len(thms) - len(missing) if not bad else 0
+    res['ok'] = (not bad) and len(thms) > 0 and not missing and res['print_assumptions_unanswered'] == 0
     return res
 
 
 # ------------------------------------------------------------------------------------------ running
+class InfraError(Exception):
+    """the check machinery itself failed (a case without an outcome, a harness that could not read its arguments, a model
+    that did not finish): the check must FAIL loudly (INFRA-ERROR, exit 2), never count such a case as agreement"""
+
+
+def _launch(binary, part, fn):
+    with open(fn, 'w') as f:
+        f.write('\n'.join(part))
+        f.write('\n')
+    # outcomes go to a file, not a pipe: with pipes the shards read later would block on a full pipe and the run would be serial
+    fo = open(fn + '.out', 'wb')
+    p = subprocess.Popen([binary, fn], stdout=fo, stderr=subprocess.DEVNULL)
+    fo.close()
+    return p
+
+
+def _collect(fn):
+    out = {}
+    try:
+        with open(fn + '.out', 'rb') as fo:
+            data = fo.read()
+    except OSError:
+        data = b''
+    for f in (fn + '.out', fn):
+        try:
+            os.unlink(f)
+        except OSError:
+            pass
+    lines = data.decode('utf-8', 'replace').split('\n')
+    # both binaries write and flush one whole line per outcome, so only the LAST line can be cut short by a death
+    if lines and lines[-1] != '':
+        lines = lines[:-1]
+    for line in lines:
+        if not line:
+            continue
+        i = line.find(' ')
+        if i > 0:
+            out[line[:i]] = line[i + 1:]
+    return out
+
+
+MAX_TIMEOUTS_PER_SHARD = 2
+RUN_STATS = {'reruns': 0, 'deaths': 0, 'timeouts': 0}
+
+
 def run_cases(binary, lines, tag, shards=None, timeout=1800):
-    """Run a list of case lines through a binary, sharded.  Returns dict id -> outcome string."""
+    """Run a list of case lines through a binary, sharded.  Returns dict id -> outcome string; EVERY id gets an outcome.
+
+    A shard whose process dies (abort, stack overflow, allocation failure) or is killed at the deadline has produced the
+    outcomes of the cases before the fatal one (both binaries flush every line).  The first case without an outcome is the
+    fatal one: it gets `abort:<signal or exit code>` (or `timeout`), and the REMAINING cases of the shard are run again in a
+    fresh process, until every case of the shard has an outcome.  After MAX_TIMEOUTS_PER_SHARD deadline kills in one shard
+    its remaining cases are all marked `timeout` (an explicit outcome that check.py refuses to take for agreement)."""
     d = os.path.join(WORK, 'cases')
     os.makedirs(d, exist_ok=True)
     shards = shards or (NCPU if len(lines) > 400 else 1)
-    n = len(lines)
-    procs = []
     uid = '%s-%d' % (tag, os.getpid())
-    for k in range(shards):
-        part = lines[k::shards]
-        if not part:
-            continue
-        fn = os.path.join(d, '%s-%d.cases' % (uid, k))
-        with open(fn, 'w') as f:
-            f.write('\n'.join(part))
-            f.write('\n')
-        # outcomes go to a file, not a pipe: with pipes the shards read later would block on a full pipe
-        # and the run would be serial
-        fo = open(fn + '.out', 'wb')
-        p = subprocess.Popen([binary, fn], stdout=fo, stderr=subprocess.DEVNULL)
-        fo.close()
-        procs.append((p, fn, part))
     res = {}
-    deadline = time.time() + timeout
-    for p, fn, part in procs:
-        try:
-            p.wait(timeout=max(1, deadline - time.time()))
-        except subprocess.TimeoutExpired:
-            p.kill()
-            p.wait()
-        with open(fn + '.out', 'rb') as fo:
-            out = fo.read()
-        try:
-            os.unlink(fn + '.out')
-        except OSError:
-            pass
-        for line in out.decode('utf-8', 'replace').split('\n'):
-            if not line:
+    # work items: (shard number, generation, lines, timeouts so far)
+    todo = [(k, 0, lines[k::shards], 0) for k in range(shards) if lines[k::shards]]
+    while todo:
+        procs = []
+        for k, g, part, nto in todo:
+            fn = os.path.join(d, '%s-%d-%d.cases' % (uid, k, g))
+            procs.append((_launch(binary, part, fn), fn, k, g, part, nto))
+        todo = []
+        deadline = time.time() + timeout
+        for p, fn, k, g, part, nto in procs:
+            timed_out = False
+            try:
+                p.wait(timeout=max(1, deadline - time.time()))
+            except subprocess.TimeoutExpired:
+                p.kill()
+                p.wait()
+                timed_out = True
+            got = _collect(fn)
+            res.update(got)
+            rest = [c for c in part if c.split(' ', 1)[0] not in got]
+            if not rest:
                 continue
-            i = line.find(' ')
-            res[line[:i]] = line[i + 1:]
-        if p.returncode != 0:
-            # the process died (abort / stack overflow): find the first case without an outcome
-            for c in part:
-                cid = c.split(' ', 1)[0]
-                if cid not in res:
-                    res[cid] = 'abort:%s' % (-p.returncode if p.returncode < 0 else p.returncode)
-                    break
-        try:
-            os.unlink(fn)
-        except OSError:
-            pass
+            if p.returncode == 0 and not timed_out:
+                # the process ended normally and still skipped cases (empty / comment lines): they stay without an outcome
+                continue
+            first = rest[0].split(' ', 1)[0]
+            if timed_out:
+                RUN_STATS['timeouts'] += 1
+                res[first] = 'timeout'
+                nto += 1
+                if nto >= MAX_TIMEOUTS_PER_SHARD:
+                    for c in rest[1:]:
+                        res[c.split(' ', 1)[0]] = 'timeout'
+                    continue
+            else:
+                RUN_STATS['deaths'] += 1
+                res[first] = 'abort:%s' % (-p.returncode if p.returncode < 0 else p.returncode)
+            if rest[1:]:
+                RUN_STATS['reruns'] += 1
+                todo.append((k, g + 1, rest[1:], nto))
     return res
+
+
+def require_outcomes(res, ids, what):
+    """raise InfraError unless every id has a real outcome in res (dict id -> outcome)"""
+    bad = [(i, res.get(i, 'missing')) for i in ids if infra_outcome(res.get(i, 'missing'))]
+    if bad:
+        raise InfraError('%s: %d case(s) without a usable outcome, e.g. %s -> %s' % (what, len(bad), bad[0][0], bad[0][1]))
+
+
+def infra_outcome(o):
+    """an outcome that says the machinery failed, not the code under test"""
+    return o == 'missing' or o.startswith('harness-error') or o.startswith('unknown-op') or o.startswith('driver-failure')
+
+
+# what a stack overflow looks like from outside: Rust's guard-page handler prints a message and aborts (SIGABRT = 6); without the
+# handler the process takes the SIGSEGV (11).  Any other death (SIGKILL by the OOM killer, SIGILL, SIGBUS, a non-zero exit code such
+# as 101 from a panic that escaped) is NOT taken for a stack overflow.
+STACK_OVERFLOW_DEATHS = ('abort:6', 'abort:11')
 
 
 def run_one(binary, line, timeout=120):
